@@ -180,6 +180,18 @@ EnumLines(m, val) ==
                \o "  \"b\"" \o (IF Bit(m, 4) THEN " // c4" ELSE "") \o "\n]} */"
   /\ typ' = "" /\ expect' = (IF val = "\"z\"" THEN "reject" ELSE "accept")
 
+\* ---- one named enum rule (text in `typ`, marked "rule:"; registered with AddRule as @t) referred to by two nodes of
+\* one schema: each reference means the list the rule text says, however the text is laid out (comments on lines of
+\* their own included) and however often the rule has been read before
+NamedRuleTexts == << "[\"x\", \"y\", 3]", "[\n  \"x\", // first\n  // a line that holds nothing but a comment\n  \"y\",\n  3 // last\n]",
+                     "[ // c\n  \"x\",\n  // c\n  // c\n  \"y\", 3\n]" >>
+NamedEnumVals == << "\"x\"", "\"y\"", "3", "\"z\"" >>
+NamedEnumTwice(r, a, b) ==
+  /\ stage = "start" /\ fam' = "namedenum" /\ stage' = "done" /\ list' = <<>>
+  /\ root' = "{\n  \"a\": " \o NamedEnumVals[a] \o ", // {enum: @t}\n  \"b\": " \o NamedEnumVals[b] \o " // {enum: @t}\n}"
+  /\ typ' = "rule:" \o NamedRuleTexts[r]
+  /\ expect' = Verdict(a # 4 /\ b # 4)
+
 \* ---- size: n members that all refer to one user type (or carry one rule each), for the sizes at which an
 \* implementation may switch its bookkeeping or meet a limit.  The text is long and regular: the specification gives
 \* shape and size, `root` holds the member pattern with # for the member number, the harness repeats it n times.
@@ -264,6 +276,7 @@ Next == \/ StartEnum
         \/ \E i \in 1..Len(KeyStrings), v \in {1, 4, 8} : KeyShortcut(i, v)
         \/ \E i \in 1..Len(KeyStrings), f \in BOOLEAN : KeyShortcutTwin(i, f)
         \/ \E m \in 0..31, val \in {"\"a\"", "\"b\"", "\"z\""} : EnumLines(m, val)
+        \/ \E r \in 1..Len(NamedRuleTexts), a, b \in 1..Len(NamedEnumVals) : NamedEnumTwice(r, a, b)
         \/ \E v \in OrValues, i, j \in 1..Len(TypeVocab), fi, fj \in {"name", "set"}, s \in {"root", "prop"}, nf \in BOOLEAN : OrVocab(v, i, j, fi, fj, s, nf)
 Spec == Init /\ [][Next]_vars
 
